@@ -52,6 +52,23 @@ SchemaSpellings == { Spell("plain", "main", "main", DQ("main"), FALSE), Spell("u
                      Spell("mixed", "Main", "Main", DQ("Main"), FALSE), Spell("plain-q", "main", DQ("main"), DQ("main"), TRUE),
                      Spell("mixed-q", "Main", DQ("Main"), DQ("Main"), TRUE) }
 
+(* the abstract identity of an identifier case: the KIND of spelling (what quoting it needs) and the ROUTE by     *)
+(* which format.go writes a name at that position (format.go, "Known limitations": REFERENCES targets, function   *)
+(* names and type names are written as stored, everything else goes through ident())                              *)
+Kind(cls) ==
+  IF cls \in {"plain", "plain-q", "underscore"} THEN "plain"
+  ELSE IF cls \in {"mixed", "upper"} THEN "case-bare"
+  ELSE IF cls = "mixed-q" THEN "case-quoted"
+  ELSE IF cls = "kw-soft" THEN "soft-keyword"
+  ELSE IF cls = "dollar" THEN "bare-dollar"
+  ELSE IF cls \in KwClasses THEN "keyword"
+  ELSE "needs-quotes"
+Route(pos) ==
+  IF pos \in {"reftbl", "fkreftbl"} THEN "ref-table"
+  ELSE IF pos = "func" THEN "func-name"
+  ELSE IF pos \in {"type-coldef", "type-cast"} THEN "type-name"
+  ELSE "name"
+
 -----------------------------------------------------------------------------
 T0     == "CREATE TABLE t (id INTEGER PRIMARY KEY, a INTEGER, b INTEGER, s TEXT)"
 T0Rows == "INSERT INTO t VALUES (1, 10, 20, 'x'), (2, 30, 40, 'X'), (3, -5, 0, 'y')"
